@@ -224,6 +224,14 @@ theorem topicChannelArgs_shape :
        "if !protocol.IsValidChannelName(channelName)",
        "return return \"\", \"\", errors.New(\"INVALID_ARG_CHANNEL\")"] := by decide
 
+/-- `/ping` returns the string "OK" (= `pingBody`), `/info` a document whose only member is `version`
+(= `infoKeys`); both ignore the request and the registry -/
+theorem ping_info_shape :
+    Lookupd.pingStmts = ["return return \"OK\", nil"] ∧
+    Lookupd.infoStmts =
+      ["return return struct { Version string `json:\"version\"` }{ Version: version.Binary, }, nil"] ∧
+    "OK".toList.map (·.toNat) = pingBody.map (·.toNat) ∧ infoKeys = ["version"] := by decide
+
 /-- names: the regular expression and the length bounds `validName` implements -/
 theorem names :
     Lookupd.nameRegex = "^[.a-zA-Z0-9_-]+(#ephemeral)?$" ∧
